@@ -56,6 +56,11 @@ RULE += (" Added after the white-box review: "
          "'users swapped', caller writes into its path-loss array, "
          "refused init with a wrong user count, first data block "
          "real-valued ")
+RULE += (" Added after the second white-box review: one antenna count as "
+         "an int next to an array for the other; set_pathloss given the "
+         "object's own pathloss array; a re-layout that changes K or the "
+         "external sources under a path loss, immediately followed by the "
+         "new path loss; the real-valued data block in any position. ")
 
 ASSUMPTIONS = [
     "changing the antenna layout or K while a path-loss matrix or post "
@@ -296,7 +301,9 @@ class Interp(object):
         if self._pending_repl is not None:
             repl, self._pending_repl = self._pending_repl, None
             self._op_pathloss(dict(
-                op="pathloss", kind="same" if repl == "reset_same"
+                op="pathloss", kind=("own" if int(op.get("seed", 0)) % 2
+                                     and not self.ext else "same")
+                if repl == "reset_same"
                 else "matrix", seed=int(op.get("seed", 0)) + 17, noarg=False))
         self._cheap_invariant()
         if self.sweep_mode == "every":
@@ -334,9 +341,19 @@ class Interp(object):
                 # the drop is re-initialised for the re-ordered users and
                 # the same path loss values are set again
                 f = "reset_same"
+            same_KE = len(want["Nr"]) == self.K and \
+                len(want.get("NtE") or []) == self.E
+            if f == "reset_new" and not same_KE and self.W is None \
+                    and self.PL is not None:
+                # a user / an external source joins or leaves under a path
+                # loss, IMMEDIATELY followed by the new path loss matrix
+                self._pending_repl = f
+                self.ctx.label("relayout_then_set_pathloss:K_or_E_changed")
+                self.ctx.label("relayout")
+                self.ctx.label("K_changed")
+                return want
             if f in ("reset_same", "reset_new") and self.W is None \
-                    and self.PL is not None and len(want["Nr"]) == self.K \
-                    and len(want.get("NtE") or []) == self.E:
+                    and self.PL is not None and same_KE:
                 # re-layout while a path loss is set, IMMEDIATELY followed by
                 # a new set_pathloss (what the apps do): nothing is observed
                 # in between, afterwards every view must be coherent again
@@ -364,8 +381,16 @@ class Interp(object):
                                                           dtype=int)
         if ints and allow_int_N and len(set(lay["Nr"])) == 1 \
                 and len(set(lay["Nt"])) == 1:
-            Nr, Nt = int(lay["Nr"][0]), int(lay["Nt"][0])
-            self.ctx.label("int_antenna_args")
+            # both counts as ints, or (every third time each) only one of
+            # them next to an array for the other: documented per argument
+            self._n_int_args = getattr(self, "_n_int_args", 0) + 1
+            which = self._n_int_args % 3
+            if which != 1:
+                Nr = int(lay["Nr"][0])
+            if which != 2:
+                Nt = int(lay["Nt"][0])
+            self.ctx.label("int_antenna_args" if which == 0 else
+                           "int_and_array_antenna_args")
         args = [Nr, Nt, K]
         if self.ext:
             if ints and len(lay["NtE"]) == 1:
@@ -499,6 +524,19 @@ class Interp(object):
             user_int = False
             if kind == "same":
                 new = np.array(self.PL, dtype=float, copy=True)
+            elif kind == "own" and self.PL is not None and not self.ext \
+                    and np.shape(self.obj.pathloss) == (K, K + E):
+                # chan.set_pathloss(chan.pathloss): what the object reports
+                # is handed back (after a re-initialisation: same values)
+                new = np.array(self.PL, dtype=float, copy=True)
+                self.ctx.label("pathloss_own_array_handed_back")
+                self._lib(self.tags(op="pathloss"), self.obj.set_pathloss,
+                          self.obj.pathloss)
+                self.passed_pl = None
+                self.states.append((self.raw, self.PL))
+                self.PL = new
+                self.events.append(("pl", kind))
+                return
             elif kind == "ones":
                 new = np.ones((K, K + E))
             elif kind == "near" and self.PL is not None:
@@ -668,15 +706,17 @@ class Interp(object):
             out = self._lib(tags, self.obj.corrupt_concatenated_data,
                             x.copy())
         else:
+            ri = int(op.get("seed", 0)) % self.K
             if op.get("real_first") and self.K >= 2:
-                # the first user sends real symbols (BPSK), the others
-                # complex ones: blocks of different dtypes
-                x[self._colslice(0), :] = x[self._colslice(0), :].real
-                self.ctx.label("corrupt:first_block_real_dtype")
+                # one user (any position) sends real symbols (BPSK), the
+                # others complex ones: blocks of different dtypes
+                x[self._colslice(ri), :] = x[self._colslice(ri), :].real
+                self.ctx.label("corrupt:first_block_real_dtype" if ri == 0
+                               else "corrupt:later_block_real_dtype")
             blocks = [x[self._colslice(i), :].copy()
                       for i in range(len(cols))]
             if op.get("real_first") and self.K >= 2:
-                blocks[0] = np.ascontiguousarray(blocks[0].real)
+                blocks[ri] = np.ascontiguousarray(blocks[ri].real)
             data = _obj_array(blocks[:self.K])
             if self.ext:
                 out = self._lib(tags, self.obj.corrupt_data, data,
@@ -913,7 +953,7 @@ def _ops_st(tier, cls):
                      kind=st.sampled_from(["matrix", "matrix", "matrix",
                                            "tiny", "tiny", "near",
                                            "matrix", "intmatrix", "ones",
-                                           "none"]),
+                                           "own", "none"]),
                      seed=seeds, noarg=st.booleans())
     noise = fixed(op=st.just("noise_var"),
                   value=st.sampled_from([None, 0.0, 1e-3, 0.5, 4.0]))
